@@ -186,6 +186,29 @@ pub fn replay(files: &[(String, String)], schedule: &[String], lang: Lang, multi
     replay_layout(files, schedule, lang, multi, false, threads, extra_env)
 }
 
+/// As `replay` in multi-file mode, with an explicit crate per file: `files` = (stem, crate, source).
+pub fn replay_crates(files: &[(String, String, String)], schedule: &[String], lang: Lang, threads: usize) -> Replay {
+    let sc = Scratch::new("e3");
+    let mut args = cli::lang_args(lang);
+    let out = sc.path("out");
+    sc.mkdir("out");
+    args.extend([s("-d"), out.to_string_lossy().into_owned()]);
+    for (stem, krate, src) in files {
+        let p = sc.write(&format!("ws/{krate}/src/{stem}.rs"), src.as_bytes());
+        args.push(p.to_string_lossy().into_owned());
+    }
+    let expanded: Vec<String> = schedule.iter().flat_map(|l| match l.strip_prefix("send:") {
+        Some(f) => vec![l.clone(), format!("sent:{f}")],
+        None => vec![l.clone()],
+    }).collect();
+    let sched = expanded.join(",");
+    let env: Vec<(&str, String)> = vec![("TYPESHARE_VERIF_SCHEDULE", sched.clone()), ("TYPESHARE_VERIF_THREADS", threads.to_string()), ("TYPESHARE_VERIF_TRACE", "1".into())];
+    let r = run_cli(&args, &sc.root, &env, Duration::from_secs(30));
+    let passed = r.stderr.lines().filter_map(|l| l.strip_prefix("verif: passed ").map(String::from)).filter(|l| !l.starts_with("sent:")).collect();
+    let outputs = cli::snapshot(&sc.path("out"));
+    Replay { class: r.class(), code: r.code, stderr: r.stderr.chars().take(2000).collect(), passed, outputs, argv: args, schedule: sched }
+}
+
 /// As `replay`; with `same_crate` all files of a multi-file run belong to one crate (one output file, one fold bucket).
 pub fn replay_layout(files: &[(String, String)], schedule: &[String], lang: Lang, multi: bool, same_crate: bool, threads: usize, extra_env: &[(&str, String)]) -> Replay {
     let sc = Scratch::new("e3");
